@@ -37,26 +37,13 @@ def R1_loaders(run):
     f = C15._loader_checks(run, "R1", fn)
     for k in ("owner", "len", "pool", "writable"):
         run.check("R1", "loader-" + k, f[k], "load_tick_array_mut no longer fails on a wrong %s" % k, loc=fn.loc(), detail=k)
-    m = facts.need_fn("util::sparse_swap::maybe_load_tick_array")
-    run.touch(m)
-    cs = calls_to(m, ends("load_tick_array_mut"))
-    ok = len(cs) == 1 and is_param(cs[0][2][0], "account_info") and is_call(cs[0][2][1], "key") and is_param(strip(cs[0][2][1])[2][0], "whirlpool") and cfg.must_pass_call(m, cs[0][0])[0] is not None
-    run.check("R1", "maybe-load-uses-pool-key", ok, "maybe_load_tick_array does not load with the pool's own key", loc=m.loc(), detail="load_tick_array_mut(account, whirlpool.key())?")
-    # None only for system-owned empty accounts
-    pv = prov_of(m)
-    none_ok = False
-    for at in A.atoms(m):
-        s = show(at.term, True)
-        if "data_is_empty" in s or "system_program" in s:
-            none_ok = True
-    bypass = cfg.success_reach(m, 0, cut_blocks=[c[0] for c in cs])
-    run.check("R1", "skip-only-uninitialised", none_ok and bypass, "maybe_load_tick_array skips accounts other than system-owned empty ones", loc=m.loc(), detail="owner == system && empty => None")
-    tb = facts.need_fn("util::sparse_swap::SparseSwapTickSequenceBuilder::<'info>::try_build")
+    sl = C15.sequence_loader(facts)
+    tb = sl["fn"]
     run.touch(tb)
-    cs = calls_to(tb, ends("maybe_load_tick_array"))
-    ok = len(cs) == 1 and is_param(cs[0][2][1], "whirlpool") and cfg.result_checked(tb, cs[0][0]) and \
-        mentions(cs[0][2][0], lambda s: s[0] == "field" and s[2] == "tick_array_accounts")
-    run.check("R1", "try_build-loads-all", ok, "try_build does not load every supplied account through maybe_load_tick_array(account, whirlpool)?", loc=tb.loc(), detail="maybe_load_tick_array(account, whirlpool)?")
+    run.check("R1", "maybe-load-uses-pool-key", sl["load"] and sl["checked"], "try_build does not load each supplied account with the pool's own key and fail on the loader's error: %s" % sl["why"],
+              loc=tb.loc(), detail="load_tick_array_mut(account, whirlpool.key())?")
+    run.check("R1", "skip-only-uninitialised", sl["skip_only_empty"], "try_build skips accounts other than system-owned empty ones: %s" % sl["why"], loc=tb.loc(), detail="owner == system && empty => skipped")
+    run.check("R1", "try_build-loads-all", sl["pushed"], "try_build does not collect every loaded array", loc=tb.loc(), detail="loaded_tick_arrays.push(load_tick_array_mut(..)?)")
     # who else creates ProxiedTickArray::Initialized
     from analysis import writes
     cons = {c["fn"].path for c in writes.constructions(facts, "util::sparse_swap::ProxiedTickArray")}
